@@ -45,9 +45,9 @@ func bigTrees(n uint64, h uint) []bigTree {
 
 func c16Plan(tier string) []core.Suite {
 	if tier == "thorough" {
-		return []core.Suite{{Name: "small", N: 9, Exhaustive: true, CaseTimeout: 900}, {Name: "proofpos", N: 13, Exhaustive: true, CaseTimeout: 900}, {Name: "large", N: 64 * 4000}}
+		return []core.Suite{{Name: "small", N: 9, Exhaustive: true, CaseTimeout: 900}, {Name: "proofpos", N: 13, Exhaustive: true, CaseTimeout: 900}, {Name: "large", N: 64 * 4000}, {Name: "ppbig", N: 3000}}
 	}
-	return []core.Suite{{Name: "small", N: 7, Exhaustive: true}, {Name: "proofpos", N: 9, Exhaustive: true}, {Name: "large", N: 64 * 40}}
+	return []core.Suite{{Name: "small", N: 7, Exhaustive: true}, {Name: "proofpos", N: 9, Exhaustive: true}, {Name: "large", N: 64 * 40}, {Name: "ppbig", N: 160}}
 }
 
 func init() {
@@ -66,6 +66,8 @@ func init() {
 				c16Small(c, uint(c.Index))
 			case "proofpos":
 				c16ProofPos(c, uint64(c.Index)+1)
+			case "ppbig":
+				c16ProofPosBig(c, c.Index)
 			default:
 				c16Large(c, uint(c.Index%64))
 			}
@@ -78,6 +80,8 @@ func init() {
 			}
 			json.Unmarshal(raw, &s)
 			switch s.Suite {
+			case "ppbig":
+				c16ProofPosBig(c, int(s.N))
 			case "small":
 				c16Small(c, s.H)
 			case "proofpos":
@@ -346,6 +350,91 @@ func c16Large(c *core.Ctx, h uint) {
 	if c.WantSample("large") {
 		c.Sample("large", map[string]any{"height": h, "leaf_counts": ns})
 	}
+}
+
+// c16ProofPosBig: ProofPositions for hundreds of leaf targets in forests of hundreds to thousands
+// of leaves - regular (strided, aligned) target sets whose per-row pair and climber counts hit
+// multiples of 256, plus random ones (added after seeded change C16i, 8-bit per-row counters).
+// Deterministic in the case index.
+func c16ProofPosBig(c *core.Ctx, idx int) {
+	c.SetScenario(map[string]any{"suite": "ppbig", "n": idx})
+	rng := rand.New(rand.NewSource(int64(idx)*7919 + 17))
+	n := []uint64{512, 1024, 2048, 4096, 3000, 777, 2047, 2049}[idx%8]
+	stride := uint64(1) << uint((idx/8)%5)
+	count := []uint64{256, 512, 255, 257, 128, 1024}[(idx/40)%6]
+	start := uint64(0)
+	if idx%3 == 1 {
+		start = uint64(rng.Intn(int(stride)))
+	}
+	var slots []uint64
+	if idx%4 == 3 {
+		// random subset
+		for sl := uint64(0); sl < n; sl++ {
+			if rng.Intn(4) == 0 {
+				slots = append(slots, sl)
+			}
+		}
+	} else {
+		for i := uint64(0); i < count && start+i*stride < n; i++ {
+			slots = append(slots, start+i*stride)
+		}
+	}
+	if len(slots) == 0 {
+		return
+	}
+	h := uint(u.TreeRows(n))
+	trees := bigTrees(n, h)
+	type rk struct {
+		r uint
+		k uint64
+	}
+	roots := map[rk]bool{}
+	for _, t := range trees {
+		roots[rk{t.row, new(big.Int).Rsh(t.start, t.row).Uint64()}] = true
+	}
+	path := map[rk]bool{}
+	tset := map[rk]bool{}
+	for _, sl := range slots {
+		tset[rk{0, sl}] = true
+		r, k := uint(0), sl
+		for {
+			if path[rk{r, k}] {
+				break
+			}
+			path[rk{r, k}] = true
+			if roots[rk{r, k}] {
+				break
+			}
+			r, k = r+1, k/2
+		}
+	}
+	for _, tot := range []uint{h, h + 1, h + 4, 63} {
+		var wantProof, wantComp []uint64
+		for x := range path {
+			if !roots[x] {
+				if sib := (rk{x.r, x.k ^ 1}); !path[sib] {
+					wantProof = append(wantProof, bpos(sib.r, tot, new(big.Int).SetUint64(sib.k)))
+				}
+			}
+			if !tset[x] {
+				wantComp = append(wantComp, bpos(x.r, tot, new(big.Int).SetUint64(x.k)))
+			}
+		}
+		sort.Slice(wantProof, func(a, b int) bool { return wantProof[a] < wantProof[b] })
+		sort.Slice(wantComp, func(a, b int) bool { return wantComp[a] < wantComp[b] })
+		c.Eval(1)
+		gotProof, gotComp := u.ProofPositions(cloneU64(slots), n, uint8(tot))
+		if !eqU64(gotProof, wantProof) {
+			c.Violate("ProofPositions", "proof-positions", "many-targets", fmt.Sprintf("n=%d totalRows=%d, %d targets (first %d, stride %d): got %d positions, want %d", n, tot, len(slots), slots[0], stride, len(gotProof), len(wantProof)))
+			return
+		}
+		if !eqU64(gotComp, wantComp) {
+			c.Violate("ProofPositions", "computable-positions", "many-targets", fmt.Sprintf("n=%d totalRows=%d, %d targets (first %d, stride %d): got %d positions, want %d", n, tot, len(slots), slots[0], stride, len(gotComp), len(wantComp)))
+			return
+		}
+		c.Distinct(core.FP("ppbig", n, int(tot), len(slots), int(stride), int(start)))
+	}
+	c.Count("proof_position_requests_with_hundreds_of_targets", 1)
 }
 
 // c16ProofPos: every subset of leaf positions of a forest with n leaves.
